@@ -41,12 +41,18 @@ func (w *world) probeLocks(f failer) {
 			if !c.haveID || !c.alive || !c.ensureSession(f) {
 				continue
 			}
-			for _, ln := range []string{"L1", "L2"} {
-				for _, r := range ranges {
-					for _, shared := range []bool{false, true} {
-						c.lockt(f, leaf, ln, r, shared)
+			// ... whatever the clientid field of lock_owner4 says: the
+			// session identifies the client.
+			for _, m := range cidModes {
+				c.withCID(m, func() {
+					for _, ln := range []string{"L1", "L2"} {
+						for _, r := range ranges {
+							for _, shared := range []bool{false, true} {
+								c.lockt(f, leaf, ln, r, shared)
+							}
+						}
 					}
-				}
+				})
 			}
 		}
 	}
@@ -95,6 +101,29 @@ func l41open(cl, owner, file string, access uint32, how openHow, claim claim41) 
 			return claim == claimNull || w.fs.linked[file] != nil || open41of(w, cl, owner, file) != nil
 		},
 		do: func(w *world, f failer) { w.client41(cl).open(f, owner, file, access, how, claim) }}
+}
+
+// cid turns a letter of client cl into its variant that fills the clientid
+// field of open_owner4 / lock_owner4 arguments with 0 or with another
+// client's ID instead of the session's client ID.
+func cid(m cidMode, cl string, l letter) letter {
+	do := l.do
+	l.name += m.String()
+	l.do = func(w *world, f failer) { w.client41(cl).withCID(m, func() { do(w, f) }) }
+	return l
+}
+
+// prefix41OpenCID is prefix41Open with the given clientid field.
+func prefix41OpenCID(m cidMode, cl, owner, file string, access uint32) func(w *world, f failer) {
+	p := prefix41Open(cl, owner, file, access)
+	return func(w *world, f failer) {
+		c := w.client41(cl)
+		if !c.haveID {
+			c.exchangeID(f, 1)
+			c.createSession(f, c.pendID, c.pendVerf)
+		}
+		c.withCID(m, func() { p(w, f) })
+	}
 }
 
 func l41openIOClose(cl, owner, file string, access uint32) letter {
@@ -260,6 +289,7 @@ func seqs41() []*mc.Seq {
 	out = append(out, makeSeq("v41-share", []string{"C18", "C19"}, map[string]int{"quick": 4, "thorough": 5}, prefix41Session("d1"), []letter{
 		l41open("d1", "O1", "a", accRead, howNoCreate, claimNull), l41open("d1", "O1", "a", accWrite, howNoCreate, claimFH), l41open("d1", "O1", "a", accBoth, howNoCreate, claimPrevious),
 		l41open("d1", "O2", "a", accBoth, howUnchecked, claimNull), l41open("d1", "O1", "a", accRead, howGuarded, claimNull),
+		cid(cidZero, "d1", l41open("d1", "O1", "a", accBoth, howNoCreate, claimNull)), cid(cidOther, "d1", l41open("d1", "O1", "a", accRead, howNoCreate, claimFH)),
 		l41downgrade("d1", "O1", "a", accRead), l41downgrade("d1", "O1", "a", accWrite),
 		l41close("d1", "O1", "a"), l41close("d1", "O2", "a"),
 		l41lock("d1", "O1", "a", "L1", rangeB0, false, false), l41locku("d1", "O1", "a", "L1", rangeB0), l41free("d1", "O1", "a", "L1"),
@@ -283,6 +313,11 @@ func seqs41() []*mc.Seq {
 	}
 	lockLetters = append(lockLetters,
 		l41lock("d1", "O1", "a", "L1", rangeB1, false, true),
+		// The clientid field inside open_to_lock_owner4 / lock_owner4 is
+		// to be ignored: owner L1 of d1 is ONE owner whatever it says.
+		cid(cidZero, "d1", l41lock("d1", "O1", "a", "L1", rangeB0, false, true)), cid(cidOther, "d1", l41lock("d1", "O1", "a", "L1", rangeB1, true, true)),
+		cid(cidZero, "d1", l41lockt("d1", "a", "L1", rangeAll, false)), cid(cidOther, "d1", l41lockt("d1", "a", "L1", rangeB01, false)),
+		cid(cidZero, "d2", l41lockt("d2", "a", "L1", rangeB1, false)),
 		l41lock("d1", "O1", "a", "L1", rangeHigh, true, false), l41lock("d1", "O1", "a", "L1", rangeOvfl, false, false), l41lock("d2", "O1", "a", "L1", rangeZero, false, false),
 		l41lock("d2", "O1", "a", "L1", rangeAll, false, false),
 		l41locku("d1", "O1", "a", "L2", rangeAll), l41locku("d2", "O1", "a", "L1", rangeB1),
@@ -295,8 +330,9 @@ func seqs41() []*mc.Seq {
 
 	// One lock-owner across two files and two open-owners of one client.
 	out = append(out, makeSeq("v41-locks-two-files", all3, map[string]int{"quick": 4, "thorough": 5},
-		chain(prefix41Open("d1", "O1", "a", accBoth), prefix41Open("d1", "O1", "b", accBoth), prefix41Open("d1", "O2", "a", accBoth)), []letter{
-			l41lock("d1", "O1", "a", "L1", rangeB0, false, false), l41lock("d1", "O1", "b", "L1", rangeB0, true, false),
+		chain(prefix41OpenCID(cidZero, "d1", "O1", "a", accBoth), prefix41OpenCID(cidOther, "d1", "O1", "b", accBoth), prefix41Open("d1", "O2", "a", accBoth)), []letter{
+			l41lock("d1", "O1", "a", "L1", rangeB0, false, false), cid(cidZero, "d1", l41lock("d1", "O1", "b", "L1", rangeB0, true, false)),
+			cid(cidOther, "d1", l41lockt("d1", "a", "L1", rangeB01, false)), cid(cidZero, "d1", l41lockt("d1", "b", "L1", rangeB0, false)),
 			l41lock("d1", "O2", "a", "L3", rangeB01, true, false), l41lock("d1", "O1", "a", "L2", rangeB1, true, false),
 			l41locku("d1", "O1", "a", "L1", rangeAll), l41locku("d1", "O1", "b", "L1", rangeB0),
 			l41lockt("d1", "a", "L1", rangeB01, false), l41lockt("d1", "b", "L2", rangeB0, false),
@@ -324,11 +360,13 @@ func seqs41() []*mc.Seq {
 	// NFSv4.0 and NFSv4.1 clients share the opened files pool: their
 	// locks exclude each other.
 	out = append(out, makeSeq("v40-v41-locks", []string{"C20", "C18"}, map[string]int{"quick": 4, "thorough": 5},
-		chain(prefix40Open("c1", "O1", "a", accBoth), prefix41Open("d1", "O1", "a", accBoth)), []letter{
+		chain(prefix40Open("c1", "O1", "a", accBoth), prefix41OpenCID(cidOther, "d1", "O1", "a", accBoth)), []letter{
 			l40lock("c1", "O1", "a", "L1", rangeB0, false), l40lock("c1", "O1", "a", "L1", rangeTail, true),
-			l41lock("d1", "O1", "a", "L1", rangeB01, true, false), l41lock("d1", "O1", "a", "L1", rangeAll, false, false),
+			// "other" is the NFSv4.0 client's ID here: same owner bytes
+			// L1, same number, different server.
+			l41lock("d1", "O1", "a", "L1", rangeB01, true, false), cid(cidOther, "d1", l41lock("d1", "O1", "a", "L1", rangeAll, false, false)),
 			l40locku("c1", "O1", "a", "L1", rangeAll), l41locku("d1", "O1", "a", "L1", rangeB0),
-			l40lockt("c1", "a", "L1", rangeB01, false), l41lockt("d1", "a", "L1", rangeB01, false),
+			l40lockt("c1", "a", "L1", rangeB01, false), l41lockt("d1", "a", "L1", rangeB01, false), cid(cidOther, "d1", l41lockt("d1", "a", "L1", rangeB01, false)), cid(cidZero, "d1", l41lockt("d1", "a", "L1", rangeAll, true)),
 			l40close("c1", "O1", "a"), l41close("d1", "O1", "a"),
 			lRemove("a"),
 			lAdvance(pastLease, "lease+1"),
